@@ -47,7 +47,7 @@ Theorem C14_inline_image_decoded :
     inline_image fuel s = POk (ops, op) r ->
     op = bs "BI" /\
     exists d c, ops = [OStream d c] /\ NoDup (map fst d) /\
-                img_len d = Some (N.of_nat (length c)) /\ cs_start c = true /\
+                img_len d = Some (N.of_nat (length c)) /\
                 dict_get d K_Length = Some (OInt (Z.of_nat (length c))).
 Proof. exact inline_image_sound. Qed.
 
@@ -144,17 +144,8 @@ Theorem C14_real_rt :
 Proof. exact real_rt. Qed.
 
 (* ---------------------------------------------------------------------------------------------
-   (5) The known classes are real (KnownClass witnesses, replayed on the crate by ./check) *)
-Theorem C14_keyword_operator_refuted :
-  op_dom kw_witness /\ known_class kw_witness = true /\
-  decode_content (encode_content [kw_witness]) = DecOk [mkop "ify" [ONull]].
-Proof. exact kw_witness_refutes. Qed.
-
-Theorem C14_bi_prefix_refuted :
-  op_dom bi_witness /\ known_class bi_witness = true /\
-  decode_content (encode_content [bi_witness]) = DecErr.
-Proof. exact bi_witness_refutes. Qed.
-
+   (5) The known class is real (KnownClass witness, replayed on the crate by ./check); the classes
+   of the two repaired findings now round-trip *)
 Theorem C14_deep_nesting_refuted :
   op_dom deep_witness /\ known_class deep_witness = true /\
   decode_content (encode_content [deep_witness]) = DecOk [].
@@ -164,7 +155,29 @@ Theorem C14_deep_limit_example :
   decode_content (encode_content [mkop "x" [nested 100]]) = DecOk [mkop "x" [nested 100]].
 Proof. exact deep_limit_ok. Qed.
 
+(* fixed finding C14-keyword-operator: an operator that merely begins with null / true / false / BI *)
+Theorem C14_keyword_boundary_fixed :
+  op_dom kw_witness /\ known_class kw_witness = false /\
+  decode_content (encode_content [kw_witness; bi_witness; mkop "trueType" [OBool true; ONull]; mkop "falsey" [ONull]]) =
+  DecOk [kw_witness; bi_witness; mkop "trueType" [OBool true; ONull]; mkop "falsey" [ONull]].
+Proof. exact kw_witness_fixed. Qed.
+
+(* fixed finding C14-image-leading-space: image data beginning with white-space bytes *)
+Theorem C14_image_space_data_fixed :
+  decode_content (encode_content
+    [mkop "BI" [OStream [(bs "W", OInt 2); (bs "H", OInt 1); (bs "CS", OName (bs "Gray")); (bs "BPC", OInt 8)] [x20; x0a]]]) =
+  DecOk [mkop "BI" [OStream [(bs "W", OInt 2); (bs "H", OInt 1); (bs "CS", OName (bs "Gray")); (bs "BPC", OInt 8);
+                             (bs "Length", OInt 2)] [x20; x0a]]].
+Proof. exact image_space_data_fixed. Qed.
+
 (* (6) The documented domain restrictions are necessary *)
+Theorem C14_keyword_operator_refuted :
+  decode_content (encode_content [mkop "null" []]) = DecOk [] /\
+  decode_content (encode_content [mkop "true" [OInt 1]]) = DecOk [] /\
+  decode_content (encode_content [mkop "q" []; mkop "false" []; mkop "Q" []]) = DecOk [mkop "q" []; mkop "Q" [OBool false]] /\
+  decode_content (encode_content [mkop "BI" []]) = DecErr.
+Proof. exact keyword_operator_refuted. Qed.
+
 Theorem C14_reference_operand_refuted :
   decode_content (encode_content [mkop "x" [ORef 1 0]]) = DecOk [mkop "R" [OInt 1; OInt 0]; mkop "x" []].
 Proof. exact reference_operand_refuted. Qed.
@@ -172,11 +185,6 @@ Proof. exact reference_operand_refuted. Qed.
 Theorem C14_nonfinite_real_refuted :
   decode_content (encode_content [mkop "x" [OReal (bs "NaN")]]) = DecOk [mkop "NaN" []; mkop "x" []].
 Proof. exact nan_operand_refuted. Qed.
-
-Theorem C14_image_space_data_refuted :
-  decode_content (encode_content
-    [mkop "BI" [OStream [(bs "W", OInt 1); (bs "H", OInt 1); (bs "CS", OName (bs "Gray")); (bs "BPC", OInt 8)] [x20]]]) = DecErr.
-Proof. exact image_space_data_refuted. Qed.
 
 Print Assumptions C14_rt.
 Print Assumptions C14_example.
@@ -195,9 +203,9 @@ Print Assumptions C14_hex_rt.
 Print Assumptions C14_integer_rt.
 Print Assumptions C14_real_rt.
 Print Assumptions C14_keyword_operator_refuted.
-Print Assumptions C14_bi_prefix_refuted.
+Print Assumptions C14_keyword_boundary_fixed.
 Print Assumptions C14_deep_nesting_refuted.
 Print Assumptions C14_deep_limit_example.
 Print Assumptions C14_reference_operand_refuted.
 Print Assumptions C14_nonfinite_real_refuted.
-Print Assumptions C14_image_space_data_refuted.
+Print Assumptions C14_image_space_data_fixed.
